@@ -114,8 +114,8 @@ UNITS = [
                  "backslashes): ~750 (thorough ~3 700) programs emitted by _generate_program_definition_for_regex, "
                  "compiled together with the emitted common.cpp and revm.cpp (g++ -std=c++17, 32-bit wchar_t: the "
                  "UTF-32 branch) and run on 165 strings (all over 'abcd.' up to length 3 + 9 with astral / Latin-1 "
-                 "characters); answers compared with re.fullmatch; a program that does not answer within 2 s counts "
-                 "as not terminating", args={"stride": 41, "hang_s": 2}, thorough_args={"stride": 7, "hang_s": 2},
+                 "characters); answers compared with re.fullmatch; a program that prints no answer for 5 s (thorough: 3 s) "
+                 "counts as not terminating", args={"stride": 41, "hang_s": 5}, thorough_args={"stride": 7, "hang_s": 3},
            timeout_s=3000),
     Native("small anchored patterns: the VM program against re.fullmatch", ["C18"], "native.c18:bounded", kind="bounded",
            bound="every pattern ^t1 t2$ with <= 2 terms from 14 atoms (chars, escapes, '.', sets, complemented and range "
